@@ -300,7 +300,7 @@ func replayAll(prop string, results []jobResult, viols []*Violation, loaded []*L
 				agree = false
 				diffs = append(diffs, fmt.Sprintf("outcome executor=%s native panic=%q", outcome, r.Panic))
 			}
-			if r.AssumeFailed != strings.HasPrefix(outcome, "infeasible") {
+			if r.AssumeFailed != (strings.HasPrefix(outcome, "infeasible") || strings.HasPrefix(outcome, "skipped")) {
 				agree = false
 				diffs = append(diffs, fmt.Sprintf("assumptions: executor=%s native assume_failed=%v", outcome, r.AssumeFailed))
 			}
